@@ -1,4 +1,4 @@
-\* generated by the builder of C02/C08; see MCSearchers.tla for the families
+\* generated with the builder script of C02/C08; families: MCSearchers.tla
 SPECIFICATION Spec
 CONSTANTS
   SegSizes <- Segs21
@@ -6,9 +6,11 @@ CONSTANTS
   OneHitEnc = TRUE
   ScoreNone = FALSE
   HeapTakeover = 10
-  MaxCalls = 3
+  MaxCalls = 2
   NTerms = 3
-  Queries <- QDeepQuick
+  Family = "deepq"
+  DropK1 = FALSE
+  Queries <- MCQueries
   FirstAdvanceOK <- FirstAdvNoQ2
 VIEW View
 INVARIANT ResultOK
